@@ -39,6 +39,17 @@ func vfGenC15(t *rapid.T) vfC15Case {
 	// scene mean below / inside / above the configured range
 	c.Base = rapid.SampledFrom([]uint16{100, 800, 950, 1050, 2000, 3000, 3500, 4000, 4500, 5461, 30000, 61000}).Draw(t, "base15")
 	n := rapid.IntRange(2, 40).Draw(t, "n")
+	if rapid.IntRange(0, 31).Draw(t, "realsize") == 0 {
+		// the resolutions of the real cameras with scenes from cool to nearly saturated: sums over the whole
+		// image reach 2^32 and beyond
+		wh := rapid.SampledFrom([][2]int{{160, 120}, {320, 256}, {640, 512}}).Draw(t, "wh")
+		c.Cfg.W, c.Cfg.H = wh[0], wh[1]
+		c.Base = rapid.SampledFrom([]uint16{3000, 13200, 28000, 53300, 64000}).Draw(t, "basebig")
+		n = rapid.IntRange(2, 6).Draw(t, "nbig")
+		if c.Cfg.Count > 50 {
+			c.Cfg.Count = 50
+		}
+	}
 	c.Frames = vfGenTimeline(t, n, rapid.IntRange(0, 2).Draw(t, "ffc") > 0, true)
 	// slowly drifting scene: whole-frame level changes and single cooling / warming pixels
 	level := int(c.Base)
@@ -283,6 +294,6 @@ func vfRunC15(c vfC15Case) *kit.Result {
 
 func TestVF_C15(t *testing.T) {
 	kit.Drive(t, "C15", "TestVF_C15",
-		"generated: dynamic-threshold streams with slowly drifting scenes, cooling/warming pixels, FFC periods and resets, optionally with the motion sink's start/stop failing; temp-thresh-min / max unset or set in all four combinations with the scene mean below, inside and above the range; preview frames 0-6, edge 0-2. Oracle (after every clear frame, read in-package from the detector alone and inside a MotionProcessor): background <= frame on every interior pixel; every border pixel equals its nearest interior pixel; background interior == frame on the first clear frame after start-up, a reset or an FFC period; if the background changed and more than preview*fps background frames were seen the threshold t satisfies floor(m-1e-6) <= t < m+1-1e-6 for m = clamp(mean of interior background, [min,max]) (truncation, rounding or rounding up of the mean; nothing else), otherwise it is unchanged or equals that value; every StartRecording receives the background and threshold in force. Non-trivial: >=3 recomputations with the clamp active at least once, or a re-seed after an FFC/reset.",
+		"generated: dynamic-threshold streams with slowly drifting scenes, cooling/warming pixels, FFC periods and resets, optionally with the motion sink's start/stop failing; temp-thresh-min / max unset or set in all four combinations with the scene mean below, inside and above the range; preview frames 0-6, edge 0-2; one case in 32 at 160x120, 320x256 or 640x512 with levels up to 64000. Oracle (after every clear frame, read in-package from the detector alone and inside a MotionProcessor): background <= frame on every interior pixel; every border pixel equals its nearest interior pixel; background interior == frame on the first clear frame after start-up, a reset or an FFC period; if the background changed and more than preview*fps background frames were seen the threshold t satisfies floor(m-1e-6) <= t < m+1-1e-6 for m = clamp(mean of interior background, [min,max]) (truncation, rounding or rounding up of the mean; nothing else), otherwise it is unchanged or equals that value; every StartRecording receives the background and threshold in force. Non-trivial: >=3 recomputations with the clamp active at least once, or a re-seed after an FFC/reset.",
 		vfGenC15, vfRunC15)
 }
